@@ -29,7 +29,8 @@ Section Origin.
   Definition conf_err (e : err) : Prop :=
     (exists q, lookup_parse (sc_parse sc) q = PErr e) \/ (exists s, configured s /\ s_ret s = RetErr e).
   Definition err_src (e : err) : Prop := lib_err e \/ conf_err e.
-  Hypothesis Qother : forall m, (match m with BDataRow _ | BError _ | BRowDesc _ => False | _ => True end) -> Q m.
+  Hypothesis Qother : forall m, (match m with BDataRow _ | BError _ | BRowDesc _ | BParamDesc _ => False | _ => True end) -> Q m.
+  Hypothesis Qpd : forall s, configured s -> Q (BParamDesc (map (fun o : Z => o mod 4294967296) (s_poids s))).
   Hypothesis Qdesc : forall s fmts, configured s -> Q (row_desc (s_cols s) fmts).
   Hypothesis Qrow : forall s fmts vs fields, configured s -> In (HRow vs) (s_prog s) ->
     write_row encode_value (s_cols s) fmts vs = RowOk fields -> Q (BDataRow fields).
@@ -40,7 +41,7 @@ Section Origin.
   Proof. unfold qall. rewrite oouts_app. intros A B. apply Forall_app. split; assumption. Qed.
   Lemma qall_nil : qall [].
   Proof. constructor. Qed.
-  Lemma qall_cons_other e r : (match e with Out (BDataRow _) | Out (BError _) | Out (BRowDesc _) => False | _ => True end) -> qall r -> qall (e :: r).
+  Lemma qall_cons_other e r : (match e with Out (BDataRow _) | Out (BError _) | Out (BRowDesc _) | Out (BParamDesc _) => False | _ => True end) -> qall r -> qall (e :: r).
   Proof.
     intros H R. unfold qall. destruct e; cbn [Oracles.outs flat_map app]; try exact R.
     constructor; [apply Qother; destruct m; try exact I; exact H|exact R].
@@ -224,7 +225,8 @@ Section Origin.
         destruct (take_cstr l1) as [[name l2]|]; [|injection Qq as <- <- <-; split; [apply qall_nil|exact Iv]].
         destruct (Byte.eqb kd x53).
         + destruct (alist_get name (st_stmts st)) as [s0|] eqn:G; unfold ext_err in Qq; injection Qq as <- <- <-; (split; [|exact Iv]); [|neutral].
-          apply qall_cons_other; [exact I|]. apply describe_q; [eapply I1; eauto|apply qall_nil].
+          unfold qall. cbn [Oracles.outs flat_map app]. constructor; [apply Qpd; eapply I1; eauto|].
+          apply (describe_q s0 [] []); [eapply I1; eauto|apply qall_nil].
         + destruct (Byte.eqb kd x50); [|unfold ext_err in Qq; injection Qq as <- <- <-; split; [neutral|exact Iv]].
           destruct (alist_get name (st_portals st)) as [p|] eqn:G; unfold ext_err in Qq; injection Qq as <- <- <-; (split; [|exact Iv]); [|neutral].
           apply describe_q; [eapply I2; eauto|apply qall_nil]. }
@@ -403,6 +405,7 @@ Theorem rows_come_from_handlers sc : Forall (row_from sc) (Oracles.outs (run_cas
 Proof.
   apply (serve_q sc (row_from sc)).
   - intros m H. destruct m; try exact I. destruct H.
+  - intros s _. exact I.
   - intros s fmts _. exact I.
   - intros s fmts vs fields C Hin W. destruct (write_row_decode _ _ _ _ W) as (A & B & D).
     exists s, vs, fmts. auto.
@@ -423,6 +426,7 @@ Theorem errors_come_from_callbacks sc : Forall (err_from sc) (Oracles.outs (run_
 Proof.
   apply (serve_q sc (err_from sc)).
   - intros m H. destruct m; try exact I; destruct H.
+  - intros s _. exact I.
   - intros s fmts _. exact I.
   - intros s fmts vs fields _ _ _. exact I.
   - intros e H. exists e. split; [exact H|reflexivity].
@@ -444,7 +448,25 @@ Theorem rowdescs_come_from_statements sc : Forall (desc_from sc) (Oracles.outs (
 Proof.
   apply (serve_q sc (desc_from sc)).
   - intros m H. destruct m; try exact I; destruct H.
+  - intros s _. exact I.
   - intros s fmts C. exists s, fmts. split; [exact C|split; [reflexivity|apply coldescs_length]].
+  - intros s fmts vs fields _ _ _. exact I.
+  - intros e _. exact I.
+Qed.
+
+(* ---------- where the ParameterDescription messages come from ---------- *)
+Definition paramdesc_from (sc : scase) (m : bmsg) : Prop :=
+  match m with
+  | BParamDesc l => exists s, configured sc s /\ l = map (fun o : Z => o mod 4294967296) (s_poids s)
+  | _ => True
+  end.
+
+Theorem paramdescs_come_from_statements sc : Forall (paramdesc_from sc) (Oracles.outs (run_case sc)).
+Proof.
+  apply (serve_q sc (paramdesc_from sc)).
+  - intros m H. destruct m; try exact I; destruct H.
+  - intros s C. exists s. split; [exact C|reflexivity].
+  - intros s fmts _. exact I.
   - intros s fmts vs fields _ _ _. exact I.
   - intros e _. exact I.
 Qed.
